@@ -136,6 +136,34 @@ example : (push (initStream (F := SimpleFc) { allowed := 100 }).sender [1, 2, 3]
     (onTransmit simpleFlow (push (initStream (F := SimpleFc) { allowed := 100 }).sender [1, 2, 3]) 0 50 true true).2
       = [{ off := 0, data := [1, 2, 3], fin := false }] := by decide
 
+/-- progress step (supports C02: written bytes get through): a sender in `Sending` with new data, not blocked, nothing
+    lost, whose flow-control window extends beyond what it has transmitted, reports interest and — asked to transmit
+    into any packet with room for a minimum-size write under no constraint — writes a STREAM frame: being asked to
+    transmit while reporting interest is never a no-op (no busy loop of empty transmissions, no stall). Stated for the
+    `simpleFlow` controller the differential run instantiates the real `DataSender` with. -/
+theorem new_data_is_transmitted (s : Sender SimpleFc) (pn cap : Nat)
+    (hst : s.state = .sending) (hl : s.lost = []) (hnew : s.transmissionOffset < s.totalLen)
+    (hb : s.fc.blocked = false) (hw : s.transmissionOffset < s.fc.allowed) (hc : 32 ≤ cap) :
+    s.interest simpleFlow = 1 ∧ (onTransmit simpleFlow s pn cap true true).2 ≠ [] := by
+  constructor
+  · simp [Sender.interest, hst, hl, hnew, hb, simpleFlow]
+  · have hp := Quic.Proofs.DataSender.phaseNew_writes { s with lost := [] } pn cap
+      (by simpa [Sender.totalLen] using hnew) (by simpa using hw) hc
+    have e1 : phaseLost simpleFlow s pn cap true = ({ s with lost := [] }, [], cap, false) := by
+      simp [phaseLost, hl, transmitLost]
+    unfold onTransmit
+    rw [if_neg (by simp [hst])]
+    simp only [e1]
+    have hb' : simpleFlow.isBlocked ({ s with lost := [] } : Sender SimpleFc).fc = false := by simpa [simpleFlow] using hb
+    simp only [hb', Bool.false_eq_true, if_false]
+    rw [if_neg (by simp [hp.2])]
+    simp [hp.1]
+
+/-- non-vacuity: the hypotheses hold for a sender that was just given three bytes and a window of 100 -/
+example : let s := push (initStream (F := SimpleFc) { allowed := 100 }).sender [1, 2, 3]
+    s.state = .sending ∧ s.lost = [] ∧ s.transmissionOffset < s.totalLen ∧ s.fc.blocked = false ∧
+      s.transmissionOffset < s.fc.allowed := by decide
+
 end dataSender
 
 /-! ## stream ids (`QuicModel.Stream.OpenIds`) and the close sender (`QuicModel.Conn.CloseSender`) -/
